@@ -148,6 +148,16 @@ def gen(chk):
     cases.append(('o := {S: m{t(7).S}}\n"before".p\nr := "#{o}-#{o}"\n"after".p\nr.p\n', "before\n7\n7\nafter\n7-7\n", "embstr-same-object"))
     cases.append(('c := [1, 2, 3]._iter\nq := {S: m{c.next.S}}\nr := "#{q}#{q}#{q}"\nr.p\n', "123\n", "embstr-same-object"))
     cases.append(('o := {S: m{t(7).S}}\nr := "#{o}#{ t(1) }#{o}#{ t(1) }"\nr.p\n', "7\n1\n7\n1\n7171\n", "embstr-same-object"))
+    # a range over objects asks `<=>` and then `_incBy` of the current value BEFORE it hands the value out (once each, in that order);
+    # Iterable#chain converts its operands to iterators when it is called, left to right
+    hookpre = ("N := {'<=>: m{|o| \"cmp #{.v}\".p; .v <=> o.v}, _incBy: m{|n| \"inc #{.v}\".p; N.bear({v: .v + n})}}\nmk := {|v| N.bear({v: v})}\n")
+    cases.append((hookpre + '(mk(1):mk(3))@{|x| "body #{x.v}".p; x.v}.p\n', "cmp 1\ninc 1\nbody 1\ncmp 2\ninc 2\nbody 2\ncmp 3\n[1, 2]\n", "range-hooks"))
+    cases.append((hookpre + 'it := (mk(10):mk(13))._iter\n"first #{it.next.v}".p\n"between".p\n"second #{it.next.v}".p\n',
+                  "cmp 10\ninc 10\nfirst 10\nbetween\ncmp 11\ninc 11\nsecond 11\n", "range-hooks"))
+    cases.append(('a := {_iter: m{"iter of a".p; [1, 2]._iter}}\nb := {_iter: m{"iter of b".p; [3, 4]._iter}}\nIterable[\'chain](a, b)@{|x| "elem #{x}".p; x}.p\n',
+                  "iter of a\niter of b\nelem 1\nelem 2\nelem 3\nelem 4\n[1, 2, 3, 4]\n", "chain-operands"))
+    cases.append(('gen := <{|n| yield n; recur(n + 1)}>.new(1)\nc := [0].chain(gen)\nr := [gen.next, gen.next, c.first, c.while {\\ < 5}.A]\nr.p\n',
+                  "[1, 2, 0, [1, 2, 3, 4]]\n", "chain-operands"))
     # a call whose property does not exist still evaluates what is written — arguments, keyword arguments, chain argument —
     # once and in order before it fails, and an argument's own error wins
     for body, ms in [("{}.nosuch(t(1), t(2))", [1, 2]), ("1.nosuch(t(1), k: t(2))", [1, 2]), ('"s".nosuch(*[t(1)], **{k: t(2)})', [1, 2]),
